@@ -311,6 +311,17 @@ def check(ctx):
         for r in rets[:-1]:
             c2 = _conversion(r.value, f)
             ok = conv is None or c2 == conv or (conv and c2 and c2.split("(")[0] in (conv.split("(")[0], "as_datetime", "as_date") and conv.split("(")[0] in ("as_datetime", "as_date"))
+            if not ok and conv and conv.split("(")[0] in ("as_integer", "as_boolean") and c2 is None:
+                # a conversion to a type that cannot hold missing values is applied only when nothing is missing: an early
+                # return of the unconverted output taken BECAUSE something is missing is that same rule, not an omission
+                p_ = f.module.parent.get(r)
+                tests_ = []
+                while p_ is not None and p_ is not f.node:
+                    if isinstance(p_, ast.If):
+                        tests_.append(norm(p_.test))
+                    p_ = f.module.parent.get(p_)
+                if any(".any()" in t_ or ".all()" in t_ for t_ in tests_) and all("not " not in t_.split(".any()")[0][-8:] for t_ in tests_):
+                    ok = True
             ctx.ob("MPT-5", f, f"early return {norm(r.value)} vs final {norm(final.value)}", r, ok,
                    "early return applies the same conversion as the final return" if ok else
                    f"the final return converts the output with .{conv} but this early return hands back the raw object array: "
